@@ -1,11 +1,362 @@
 /-
-C17 — placeholder while the harness is brought up (replaced by the real theorems).
+C17 — base_hash is a real compare-and-swap; failed and dry calls change nothing.
+
+Sequential part: every call of a disciplined entry point refines the one-register CAS specification
+(`C17_step`), hence so does every history of calls and external modifications, of any length
+(`C17_history`, by induction); `corrections_only` leaves the file system exactly as it was
+(`C17_dry_unchanged`); an error leaves the target and every other file exactly as they were and no
+temp file (`C17_error_unchanged`).  Generic over any program with the discipline; the generated
+programs have it (`C16.gen_*`).
 -/
-import Octave.Model.FsProg
-import Octave.Gen.WriteOps
+import Octave.Lemmas.Run
+import Octave.Spec.Register
+import Octave.Props.C16
 namespace Octave.C17
 open Octave
 
-theorem gen_no_awaits : Gen.awaitsInExecute = [] := by decide
+variable (H : Data → Hash)
+
+/-- One call of the tool on a healthy file system (no crash, no injected fault). -/
+def toolStep (s : Stmt) (fs : Fs) (c : Call) : Out := exec H s c {} fs
+
+/-- Summary of a fault-free call. -/
+theorem toolStep_summary (s : Stmt) (c : Call) (fs : Fs) (hc : CallOK c fs) (hd : s.disciplined c.params = true) :
+    (toolStep H s fs c).st.fs c.tmpName = none ∧
+    (∀ p, p ≠ c.target → p ≠ c.tmpName →
+      (toolStep H s fs c).st.fs p = fs p ∨
+        (p.isPrefixOf (parentOf c.target) = true ∧ fs p = none ∧ (toolStep H s fs c).st.fs p = some .dir)) ∧
+    Reg.allowed H c (absReg c.target fs) (toolStep H s fs c).res (absReg c.target (toolStep H s fs c).st.fs) := by
+  have hp := exec_post H s c {} fs hc hd
+  have hcf := exec_cf H s c {} fs hc hd (fun _ => rfl)
+  have hnc := exec_not_crashed H s c {} fs hc hd rfl
+  unfold toolStep
+  unfold Post at hp
+  generalize exec H s c {} fs = out at hp hcf hnc ⊢
+  rcases out with ⟨res, st⟩
+  simp only at hcf hnc hp ⊢
+  have herr : ∀ a, Inv H c fs a st.regs st.fs st.cf → a.errOk = true →
+      st.fs c.tmpName = none ∧ st.fs c.target = fs c.target := by
+    intro a hI h1
+    refine ⟨?_, hI.tgt ?_⟩
+    · cases ht : a.tmp with
+      | none => exact (hI.tnone ht).2
+      | gone => exact hI.tgone (Or.inl ht)
+      | installed => simp [Abs.errOk, ht] at h1
+      | live =>
+        simp only [Abs.errOk, ht, Bool.or_eq_true, Bool.and_eq_true, decide_eq_true_eq, reduceCtorEq, false_or, true_and] at h1
+        have := hI.cfI h1
+        rw [hcf] at this
+        cases this
+    · intro h; simp [Abs.errOk, h] at h1
+  cases res with
+  | crashed => exact absurd rfl hnc
+  | ok h =>
+    obtain ⟨a, hI, h1, h2⟩ := hp
+    by_cases hdry : c.dry = true
+    · simp only [hdry, if_true] at h2
+      have hfs := hI.clean h2.1
+      refine ⟨(hI.tnone h2.2).2, hI.frame, ?_⟩
+      refine ⟨fun h' _ hd' => ?_, fun h' _ _ => ?_, fun code hres => ?_, fun hres => ?_⟩
+      · rw [hdry] at hd'; cases hd'
+      · simp only [hfs]
+      · cases hres
+      · cases hres
+    · simp only [hdry] at h2
+      have h3 : a.tmp = .installed := by simpa using h2
+      obtain ⟨m, e1, e2, e3⟩ := hI.inst h3
+      refine ⟨hI.tgone (Or.inr h3), hI.frame, ?_⟩
+      refine ⟨fun h' hres _ => ?_, fun h' _ hd' => ?_, fun code hres => ?_, fun hres => ?_⟩
+      · injection hres with hres
+        subst hres
+        refine ⟨⟨c.canon st.regs.base, ?_, h1⟩, ?_⟩
+        · simp [absReg, Fs.dataAt, e1]
+        · intro hb
+          rcases e3 hb with e | ⟨d, m0, sy, e, e'⟩
+          · left; simp [absReg, Fs.dataAt, e]
+          · right; exact ⟨d, by simp [absReg, Fs.dataAt, e], e'⟩
+      · exact absurd hd' hdry
+      · cases hres
+      · cases hres
+  | err code =>
+    obtain ⟨a, hI, h1, _⟩ := hp
+    obtain ⟨e1, e2⟩ := herr a hI h1
+    refine ⟨e1, hI.frame, ?_⟩
+    refine ⟨fun h' hres _ => ?_, fun h' hres _ => ?_, fun code _ => ?_, fun hres => ?_⟩
+    · cases hres
+    · cases hres
+    · simp [absReg, Fs.dataAt, e2]
+    · cases hres
+  | raised =>
+    obtain ⟨a, hI, h1, _⟩ := hp
+    obtain ⟨e1, e2⟩ := herr a hI h1
+    refine ⟨e1, hI.frame, ?_⟩
+    refine ⟨fun h' hres _ => ?_, fun h' hres _ => ?_, fun code hres => ?_, fun _ => ?_⟩
+    · cases hres
+    · cases hres
+    · cases hres
+    · simp [absReg, Fs.dataAt, e2]
+
+/-- **C17_step.**  A call refines one step of the register specification: with `base_hash = some h`
+and the file present, the file changes only if its text hashes to `h`; dry, failed and raising calls
+leave it alone; a success installs a text whose hash is the returned `canonical_hash`. -/
+theorem C17_step (s : Stmt) (c : Call) (fs : Fs) (hc : CallOK c fs) (hd : s.disciplined c.params = true) :
+    Reg.allowed H c (absReg c.target fs) (toolStep H s fs c).res (absReg c.target (toolStep H s fs c).st.fs) :=
+  (toolStep_summary H s c fs hc hd).2.2
+
+/-- A stale base_hash never installs (the CAS clause in its usual form). -/
+theorem C17_stale_rejected (s : Stmt) (c : Call) (fs : Fs) (hc : CallOK c fs) (hd : s.disciplined c.params = true)
+    (d : Data) (m : Nat) (sy : Bool) (h : Hash) (hfile : fs c.target = some (.file d m sy))
+    (hb : c.baseHash = some h) (hne : H d ≠ h) (hdry : c.dry = false) :
+    (∀ h', (toolStep H s fs c).res ≠ .ok h') ∧ (toolStep H s fs c).st.fs c.target = fs c.target := by
+  have ha := C17_step H s c fs hc hd
+  have hreg : absReg c.target fs = some d := by simp [absReg, Fs.dataAt, hfile]
+  rw [hreg] at ha
+  have hno := Reg.stale_not_installed ha hb hne hdry
+  refine ⟨hno, ?_⟩
+  have hcf := exec_cf H s c {} fs hc hd (fun _ => rfl)
+  have hnc := exec_not_crashed H s c {} fs hc hd rfl
+  cases hres : (toolStep H s fs c).res with
+  | ok h' => exact absurd hres (hno h')
+  | err code => exact (C16.C16_error_clean H s c {} fs hc hd (Or.inl ⟨code, hres⟩) hcf).1
+  | raised => exact (C16.C16_error_clean H s c {} fs hc hd (Or.inr hres) hcf).1
+  | crashed => exact absurd hres hnc
+
+/-! ### Histories of any length -/
+
+/-- An external modification: somebody else rewrites the target (keeping its mode) or deletes it. -/
+def extFs (t : Path) (fs : Fs) : Option Data → Fs
+  | none => fs.set t none
+  | some d => fs.set t (some (.file d (match fs t with | some (.file _ m _) => m | _ => 420) true))
+
+/-- The implementation run over a history: the list of answers and the final file system. -/
+def runHist (s : Stmt) (t : Path) : Fs → List HStep → Fs × List Result
+  | fs, [] => (fs, [])
+  | fs, .call c :: rest =>
+      let out := toolStep H s fs c
+      ((runHist s t out.st.fs rest).1, out.res :: (runHist s t out.st.fs rest).2)
+  | fs, .ext d :: rest => runHist s t (extFs t fs d) rest
+
+/-- Static side conditions on the calls of a history on target `t`. -/
+def CallStatic (s : Stmt) (t : Path) (c : Call) : Prop :=
+  c.target = t ∧ s.disciplined c.params = true ∧ c.tmpName ≠ t ∧
+  c.tmpName.isPrefixOf (parentOf t) = false ∧ t.isPrefixOf (parentOf t) = false
+
+def HistStatic (s : Stmt) (t : Path) : List HStep → Prop
+  | [] => True
+  | .call c :: rest => CallStatic s t c ∧ HistStatic s t rest
+  | .ext _ :: rest => HistStatic s t rest
+
+/-- The temp names the calls of the history will use are free. -/
+def HistFresh (fs : Fs) : List HStep → Prop
+  | [] => True
+  | .call c :: rest => fs c.tmpName = none ∧ HistFresh fs rest
+  | .ext _ :: rest => HistFresh fs rest
+
+theorem histFresh_mono (s : Stmt) (t : Path) (fs fs' : Fs) (steps : List HStep) (hs : HistStatic s t steps)
+    (h : ∀ x, x ≠ t → x.isPrefixOf (parentOf t) = false → fs x = none → fs' x = none)
+    (hf : HistFresh fs steps) : HistFresh fs' steps := by
+  induction steps with
+  | nil => trivial
+  | cons st rest ih =>
+    cases st with
+    | call c =>
+      obtain ⟨⟨_, _, h1, h2, _⟩, hs'⟩ := hs
+      exact ⟨h _ h1 h2 hf.1, ih hs' hf.2⟩
+    | ext d => exact ih hs hf
+
+/-- **C17_history.**  For every history (any length) of calls and external modifications on one
+target, the answers and the final register of the implementation are a run of the register
+specification from the initial register. -/
+theorem C17_history (s : Stmt) (t : Path) (steps : List HStep) :
+    ∀ fs, HistStatic s t steps → HistFresh fs steps →
+      Reg.runs H (absReg t fs) steps (runHist H s t fs steps).2 (absReg t (runHist H s t fs steps).1) := by
+  induction steps with
+  | nil => intro fs _ _; exact Reg.runs.nil _
+  | cons st rest ih =>
+    intro fs hs hf
+    cases st with
+    | call c =>
+      obtain ⟨hst, hs'⟩ := hs
+      obtain ⟨ht, hd, h1, h2, h3⟩ := hst
+      have hc : CallOK c fs := ⟨by rw [ht]; exact h1, hf.1, by rw [ht]; exact h2, by rw [ht]; exact h3⟩
+      obtain ⟨e1, e2, e3⟩ := toolStep_summary H s c fs hc hd
+      simp only [runHist]
+      rw [ht] at e3
+      refine Reg.runs.call e3 (ih _ hs' ?_)
+      apply histFresh_mono s t fs _ rest hs' _ hf.2
+      intro x hx hpx hfx
+      by_cases hxt : x = c.tmpName
+      · rw [hxt]; exact e1
+      · rcases e2 x (by rw [ht]; exact hx) hxt with e | ⟨e, _, _⟩
+        · rw [e]; exact hfx
+        · rw [ht, hpx] at e; cases e
+    | ext d =>
+      simp only [runHist]
+      have hreg : absReg t (extFs t fs d) = d := by
+        cases d <;> simp [absReg, Fs.dataAt, extFs]
+      have := ih (extFs t fs d) hs (by
+        apply histFresh_mono s t fs _ rest hs _ hf
+        intro x hx _ hfx
+        cases d <;> simp [extFs, Fs.set, hx, hfx])
+      rw [hreg] at this
+      exact Reg.runs.ext this
+
+/-- **corrections_only changes nothing**: the file system after a dry call is the file system before. -/
+theorem C17_dry_unchanged (s : Stmt) (c : Call) (w : World) (fs : Fs) (hc : CallOK c fs)
+    (hd : s.disciplined c.params = true) (hdry : c.dry = true) (hw : w.crashAt = none) :
+    (exec H s c w fs).st.fs = fs := by
+  have hp := exec_post H s c w fs hc hd
+  have hnc := exec_not_crashed H s c w fs hc hd hw
+  unfold Post at hp
+  generalize exec H s c w fs = out at hp hnc ⊢
+  rcases out with ⟨res, st⟩
+  simp only at hp hnc ⊢
+  cases res with
+  | crashed => exact absurd rfl hnc
+  | ok h => obtain ⟨a, hI, _, h2⟩ := hp; simp only [hdry, if_true] at h2; exact hI.clean h2.1
+  | err code => obtain ⟨a, hI, _, _, h2⟩ := hp; exact hI.clean (h2 hdry)
+  | raised => obtain ⟨a, hI, _, h2⟩ := hp; exact hI.clean (h2 hdry)
+
+/-- **status = error changes nothing**: on a healthy file system (no injected fault) a call that
+answers an error — or lets an exception escape — leaves the target node (bytes, mode), and every other
+path, exactly as they were, and no temp file; the only trace it may leave are directories that
+`mkdir -p` created above the target (F35: reachable only under injected faults, see notes/C17.md). -/
+theorem C17_error_unchanged (s : Stmt) (c : Call) (fs : Fs) (hc : CallOK c fs) (hd : s.disciplined c.params = true)
+    (herr : (∃ code, (toolStep H s fs c).res = .err code) ∨ (toolStep H s fs c).res = .raised) :
+    (toolStep H s fs c).st.fs c.target = fs c.target ∧ (toolStep H s fs c).st.fs c.tmpName = none ∧
+    ∀ p, p ≠ c.target → p ≠ c.tmpName →
+      (toolStep H s fs c).st.fs p = fs p ∨
+        (p.isPrefixOf (parentOf c.target) = true ∧ fs p = none ∧ (toolStep H s fs c).st.fs p = some .dir) :=
+  C16.C16_error_clean H s c {} fs hc hd herr (exec_cf H s c {} fs hc hd (fun _ => rfl))
+
+/-! ### Two writers: the compare-and-swap is not atomic (F27) -/
+
+def fsEx : Fs := C16.fsEx
+def Hid : Data → Hash := fun d => d
+
+/-- Writers A and B hold the same base_hash (the hash of "old") for the same file. -/
+def callA : Call :=
+  { target := [1, 2], tmpName := [1, 8], mode := .content, baseHash := some "old".toList, canon := fun _ => "A".toList }
+def callB : Call :=
+  { target := [1, 2], tmpName := [1, 9], mode := .content, baseHash := some "old".toList, canon := fun _ => "B".toList }
+
+def sysAB : Sys :=
+  ⟨[{ call := callA, pc := Gen.writeToolStmt.toProg callA.params }, { call := callB, pc := Gen.writeToolStmt.toProg callB.params }],
+   fsEx⟩
+
+/-- … re-read_A  re-read_B  replace_A  replace_B : A runs up to and including its re-read (16 ops), then B
+does the same, then A replaces, then B replaces. -/
+def scheduleF27 : List Nat := List.replicate 16 0 ++ List.replicate 16 1 ++ [0, 1]
+
+/-- **C17_two_writers_negative (F27).**  There is a schedule of the two generated programs in which both
+writers, holding the same base_hash, answer success; the file ends up with B's text and A's update is
+lost.  The re-check and `os.replace` are not one critical section.  (Re-confirmed on the real code by
+tools/props/c17.py on every run.) -/
+theorem C17_two_writers_negative :
+    ∃ sched, ((runSched Hid sched sysAB).procs.map (fun p => p.result Hid)) = [some (.ok "A".toList), some (.ok "B".toList)] ∧
+      (runSched Hid sched sysAB).fs [1, 2] = some (.file "B".toList 416 true) :=
+  ⟨scheduleF27, by decide⟩
+
+/-- Non-vacuity of the positive side: when B starts after A has finished, B is refused with E_HASH. -/
+example : ((runSched Hid (List.replicate 17 0 ++ List.replicate 17 1) sysAB).procs.map (fun p => p.result Hid))
+    = [some (.ok "A".toList), some (.err .E_HASH)] := by decide
+
+/-! ### One event loop serves calls serially -/
+
+/-- `WriteTool.execute` contains no await / async for / async with (extracted from the AST on every
+run): as a coroutine it is one atomic segment. -/
+theorem gen_no_await_in_execute : Gen.awaitsInExecute = [] := by decide
+
+/-- An event loop: every task is a list of atomic segments (the code between two awaits); one turn runs
+the next segment of the chosen task. -/
+def loopStep {σ : Type} (tasks : List (List (σ → σ))) (i : Nat) (s : σ) : List (List (σ → σ)) × σ :=
+  match tasks[i]? with
+  | some (f :: rest) => (tasks.set i rest, f s)
+  | _ => (tasks, s)
+
+def loopRun {σ : Type} : List (List (σ → σ)) → List Nat → σ → σ
+  | _, [], s => s
+  | tasks, i :: is, s => loopRun (loopStep tasks i s).1 is (loopStep tasks i s).2
+
+/-- The (first) segment of task `i`. -/
+def seg {σ : Type} (tasks : List (List (σ → σ))) (i : Nat) (s : σ) : σ :=
+  match tasks[i]? with
+  | some (f :: _) => f s
+  | _ => s
+
+theorem foldl_seg_congr {σ : Type} (t1 t2 : List (List (σ → σ))) (idxs : List Nat)
+    (h : ∀ j ∈ idxs, t1[j]? = t2[j]?) (s : σ) :
+    idxs.foldl (fun s j => seg t1 j s) s = idxs.foldl (fun s j => seg t2 j s) s := by
+  induction idxs generalizing s with
+  | nil => rfl
+  | cons j js ih =>
+    simp only [List.foldl_cons]
+    have hj : seg t1 j s = seg t2 j s := by unfold seg; rw [h j (by simp)]
+    rw [hj]
+    exact ih (fun k hk => h k (by simp [hk])) _
+
+/-- **C17_serial_in_loop.**  If every task is a single atomic segment (no await inside `execute`), then
+whatever the event loop's schedule, the effect is that of running whole calls one after another: there
+is an order of distinct tasks whose sequential execution gives the same final state.  So two calls
+served by one event loop never interleave; the race of F27 needs separate threads or processes. -/
+theorem C17_serial_in_loop {σ : Type} (sched : List Nat) :
+    ∀ (tasks : List (List (σ → σ))) (s : σ), (∀ t ∈ tasks, t.length ≤ 1) →
+      ∃ idxs : List Nat, idxs.Nodup ∧ (∀ i ∈ idxs, ∃ f, tasks[i]? = some [f]) ∧
+        loopRun tasks sched s = idxs.foldl (fun s i => seg tasks i s) s := by
+  induction sched with
+  | nil => intro tasks s _; exact ⟨[], List.nodup_nil, by simp, rfl⟩
+  | cons i is ih =>
+    intro tasks s hlen
+    simp only [loopRun]
+    cases hti : tasks[i]? with
+    | none =>
+      simp only [loopStep, hti]
+      exact ih tasks s hlen
+    | some t =>
+      cases t with
+      | nil =>
+        simp only [loopStep, hti]
+        exact ih tasks s hlen
+      | cons f rest =>
+        have hmem : (f :: rest) ∈ tasks := List.mem_of_getElem? hti
+        have hrest : rest = [] := by
+          have := hlen _ hmem
+          cases rest with
+          | nil => rfl
+          | cons g gs => simp at this
+        subst hrest
+        simp only [loopStep, hti]
+        have hlen' : ∀ t ∈ tasks.set i [], t.length ≤ 1 := by
+          intro t ht
+          rcases List.mem_or_eq_of_mem_set ht with h | h
+          · exact hlen t h
+          · subst h; simp
+        obtain ⟨idxs, hnd, hall, heq⟩ := ih (tasks.set i []) (f s) hlen'
+        have hi : i < tasks.length := by
+          rcases List.getElem?_eq_some_iff.mp hti with ⟨h, _⟩
+          exact h
+        have hne : ∀ j ∈ idxs, j ≠ i := by
+          intro j hj hji
+          obtain ⟨g, hg⟩ := hall j hj
+          rw [hji, List.getElem?_set_self hi] at hg
+          cases hg
+        refine ⟨i :: idxs, ?_, ?_, ?_⟩
+        · exact List.nodup_cons.mpr ⟨fun h => hne i h rfl, hnd⟩
+        · intro j hj
+          rcases List.mem_cons.mp hj with h | h
+          · subst h; exact ⟨f, hti⟩
+          · obtain ⟨g, hg⟩ := hall j h
+            rw [List.getElem?_set_ne (fun e => hne j h e.symm)] at hg
+            exact ⟨g, hg⟩
+        · rw [heq]
+          simp only [List.foldl_cons]
+          have hs : seg tasks i s = f s := by unfold seg; rw [hti]
+          rw [hs]
+          apply foldl_seg_congr
+          intro j hj
+          exact List.getElem?_set_ne (fun e => hne j hj e.symm)
+
+/-- Non-vacuity: two single-segment tasks, schedule 1,0,1: task 1 runs whole, then task 0. -/
+example : loopRun [[fun (n : Nat) => n + 1], [fun n => n * 10]] [1, 0, 1] 2 = 21 := by decide
 
 end Octave.C17
